@@ -777,9 +777,15 @@ func (d *driver) main(only string, scale float64) int {
 		fmt.Printf("KNOWN-FINDING: property=%s %s (sig=%s observed=%d)\n", d.prop, k.text, k.raw, k.seen)
 	}
 	nviol := 0
-	for _, sig := range order {
+	for gi, sig := range order {
 		g := groups[sig]
 		nviol += g.n
+		if gi >= 12 {
+			if gi == 12 {
+				fmt.Printf("  (... %d further violation signatures not listed)\n", len(order)-12)
+			}
+			continue
+		}
 		dir := filepath.Join(d.root, "replays", d.prop)
 		os.MkdirAll(dir, 0o755)
 		name := fmt.Sprintf("%s-%s-%d-%d.json", g.v.Mode, g.v.Build, g.v.Index, g.v.CaseSeed)
